@@ -132,7 +132,8 @@ class C12(runner.Check):
         ops.append([k, {'study': ss, 'n': rng.choice([1, 1, 2, 3, 4]), 'worker': rng.randrange(3)}])
       elif k == 'CompleteTrial':
         ops.append([k, {'study': ss, 'trial': {'pref': rng.choice(['active', 'active', 'mutable', 'stopping']), 'i': rng.randrange(8)},
-                        'ckind': rng.choice(['final', 'final', 'final', 'infeasible']), 'v': rng.randrange(5)}])
+                        'ckind': rng.choice(['final', 'final', 'final', 'infeasible']), 'v': rng.randrange(5),
+                        'reason': rng.choice(['bad', ''])}])
       elif k == 'CreateTrial':
         ops.append([k, {'study': ss, 'x': rng.randrange(40), 'tkind': rng.choice(['succeeded', 'succeeded', 'plain'])}])
       elif k == 'DeleteTrial':
